@@ -21,6 +21,10 @@ def _pid(p):
 
 
 def install_externals(X):
+    X.plugins.insert(0, PointPlugin())
+    from pyvc import interp as _interp
+    _interp.EXT_CONSTANTS.setdefault("numpy.inf", NP_INF)
+
     @X.register("toasty._libtoasty.mid")
     def _(interp, args, kwargs):
         interp.note_assumption("compiled _libtoasty.mid(a, b): great-circle midpoint, symmetric in its arguments (up to rounding)")
@@ -32,6 +36,35 @@ def install_externals(X):
             p.attrs["_g_of"] = (a, b)
             pts[key] = p
         return pts[key]
+
+
+NP_INF = z3.Real("np_inf")    # numpy.inf in comparisons with containment scores: above every (finite) score
+
+
+class PointPlugin(object):
+    """``corner[k]`` of an abstract corner point: its k-th coordinate, a real determined by the point"""
+
+    def getitem(self, interp, base, idx):
+        if isinstance(base, Opaque) and base.kind == "point" and idx in (0, 1):
+            return z3.Real("%s[%d]" % (base.name, idx))
+        return NotImplemented
+
+
+def _xyz_model(interp, env):
+    """_equ_to_xyz(lat, lon): the unit vector of that direction — identified by (lat, lon)"""
+    v = Opaque("xyz", fresh_name("xyz"))
+    v.attrs["_g_latlon"] = (env.lookup("lat"), env.lookup("lon"))
+    return v
+
+
+def _half_space_model(interp, env):
+    """_left_of_half_space_score(a, b, p): a finite number <= 0 (0 = p definitely to the left of the edge a -> b)"""
+    interp.note_assumption("_left_of_half_space_score returns a finite number <= 0 (cross/dot products of unit vectors); "
+                           "np.inf compares above every containment score")
+    r = z3.Real(fresh_name("half_space_score"))
+    interp.path.assume(z3.And(r <= 0, 4 * r > -NP_INF, NP_INF > 0))
+    interp.path.event("half_space", env.lookup("point_a"), env.lookup("point_b"), env.lookup("test_point"), r)
+    return r
 
 
 def fresh_tile(interp, name):
@@ -157,14 +190,144 @@ def point_trace(m, path, fr, env, outcome, value, exc):
     path.pc[:] = saved
 
 
+# ---- the descent below level 1 (C12): at every level the child that best contains the caller's point ------------------
+
+from pyvc.contracts_api import spec  # noqa: E402
+
+
+@spec
+def l1_covers(interp, qx, qy, lon, coordsys):
+    """the closed longitude quadrant of the level-1 tile (1, qx, qy) of that system contains lon (given in [0, 2pi))"""
+    pi = z3.RealVal(str(PI.numerator)) / z3.RealVal(str(PI.denominator))
+    k = QUADRANT[coordsys.name][(qx, qy)]
+    lp = z3num(lon)
+    return z3.Or(z3.And(lp >= k * pi / 2, lp <= (k + 1) * pi / 2), z3.And(lp + 2 * pi >= k * pi / 2, lp + 2 * pi <= (k + 1) * pi / 2))
+
+
+contract("toasty.toast._equ_to_xyz")(lambda c: c.model(_xyz_model))
+contract("toasty.toast._left_of_half_space_score")(lambda c: c.model(_half_space_model))
+
+
+def _same_real(a, b):
+    try:
+        return a is b or z3.is_true(z3.simplify(z3num(a) == z3num(b)))
+    except Exception:
+        return False
+
+
+def descent_trace(m, path, fr, env, outcome, value, exc):
+    if not m._case.get("descent"):
+        return
+    ev = path.events
+    starts = [i for i, e in enumerate(ev) if e[0] == "loop_iter" and e[1] == 1]
+    if starts and any(e[0] == "loop_iter_end" and e[1] == 1 for e in ev[starts[-1]:]):
+        seg = ev[starts[-1]:]
+        kids_ev = [e for e in seg if e[0] == "div4_kids"]
+        hs = [e for e in seg if e[0] == "half_space"]
+        tile = env.lookup("tile")
+        name_b = m.oblname("descends_into_a_child_with_the_best_containment_score")
+        name_a = m.oblname("containment_tests_the_callers_point_against_the_four_edges_of_the_child")
+        if len(kids_ev) != 1 or len(hs) % 4 != 0 or len(hs) == 0:
+            path.oblige(name_b, z3.BoolVal(False), kind="trace", assume_after=False)
+            return
+        kids = kids_ev[0][2]
+        chosen = [k for k, kid in enumerate(kids) if kid is tile]
+        scores = [z3.Sum([e[4] for e in hs[4 * j: 4 * j + 4]]) for j in range(len(hs) // 4)]
+        if len(chosen) != 1 or chosen[0] >= len(scores):
+            path.oblige(name_b, z3.BoolVal(False), kind="trace", assume_after=False)
+        else:
+            k = chosen[0]
+            best = z3.And(z3.BoolVal(len(scores) == 4), *[sj <= scores[k] for sj in scores])
+            path.oblige(name_b, z3.Or(scores[k] == 0, best), kind="trace", assume_after=False)
+        # every score is the sum over the directed edges ul->ur->lr->ll->ul of the scored child, for the caller's point
+        lat0, lon0 = fr.entry_env.lookup("lat"), fr.entry_env.lookup("lon")
+        pi = z3.RealVal(str(PI.numerator)) / z3.RealVal(str(PI.denominator))
+        shape_ok, lon_goals = True, []
+        for j in range(len(scores)):
+            cs = kids[j].get("corners")
+            for t, e in enumerate(hs[4 * j: 4 * j + 4]):
+                a, b, p = e[1], e[2], e[3]
+                la, lb, lp_ = [getattr(v, "attrs", {}).get("_g_latlon") for v in (a, b, p)]
+                if la is None or lb is None or lp_ is None:
+                    shape_ok = False
+                    continue
+                ca, cb = cs[t], cs[(t + 1) % 4]
+                shape_ok = shape_ok and (_same_real(la[0], m.getitem(ca, 1)) and _same_real(la[1], m.getitem(ca, 0))
+                                         and _same_real(lb[0], m.getitem(cb, 1)) and _same_real(lb[1], m.getitem(cb, 0))
+                                         and _same_real(lp_[0], lat0))
+                lon_goals.append(lp_[1])
+        q = z3.Int(fresh_name("q"))
+        ln = z3.Real(fresh_name("lon_norm"))
+        saved = list(path.pc)
+        path.assume(z3.And(ln == z3num(lon0) - 2 * pi * z3.ToReal(q), ln >= 0, ln < 2 * pi))
+        path.oblige(name_a, z3.And(z3.BoolVal(bool(shape_ok)), *[z3num(g) == ln for g in lon_goals]), kind="trace", assume_after=False)
+        path.pc[:] = saved
+    if outcome == "return":
+        ok = isinstance(value, NTuple) and value.tname == "Tile"
+        path.oblige(m.oblname("returns_a_tile"), z3.BoolVal(bool(ok)), kind="trace", assume_after=False)
+        if not ok:
+            return
+        e2 = Env_with(fr, env, value)
+        path.oblige(m.oblname("returned_tile_is_at_the_requested_depth"), m.spec("result.pos.n == depth", e2), kind="trace", assume_after=False)
+        lon0 = fr.entry_env.lookup("lon")
+        pi = z3.RealVal(str(PI.numerator)) / z3.RealVal(str(PI.denominator))
+        q = z3.Int(fresh_name("q"))
+        ln = z3.Real(fresh_name("lon_norm"))
+        saved = list(path.pc)
+        path.assume(z3.And(ln == z3num(lon0) - 2 * pi * z3.ToReal(q), ln >= 0, ln < 2 * pi))
+        t1 = fr.loop_entry_env.lookup("tile") if getattr(fr, "loop_entry_env", None) is not None else None
+        ok1 = (isinstance(t1, NTuple) and t1.get("pos").get("n") == 1 and isinstance(t1.get("pos").get("x"), int)
+               and isinstance(t1.get("pos").get("y"), int))
+        if not ok1:
+            path.oblige(m.oblname("descent_starts_from_a_level_1_tile"), z3.BoolVal(False), kind="trace", assume_after=False)
+        else:
+            px, py = t1.get("pos").get("x"), t1.get("pos").get("y")
+            e2.vars["t1"] = t1
+            k = QUADRANT[m._case["coordsys"]][(px, py)]
+            cov = z3.Or(z3.And(ln >= k * pi / 2, ln <= (k + 1) * pi / 2), z3.And(ln + 2 * pi >= k * pi / 2, ln + 2 * pi <= (k + 1) * pi / 2))
+            path.oblige(m.oblname("returned_tile_lies_below_a_level_1_tile_covering_the_longitude_in_the_requested_system"),
+                        z3.And(m.spec("desc(result.pos, t1.pos)", e2), cov), kind="trace", assume_after=False)
+            table = m.spec_value("_create_level1_tiles(coordsys)", fr.entry_env)
+            mine = [t for t in table.items if t.get("pos").get("x") == px and t.get("pos").get("y") == py]
+            from .toastsample import _tg_same_corners, _tg_same
+            same = (len(mine) == 1 and _tg_same_corners(m, [m.getitem(t1.get("corners"), k_) for k_ in range(4)], mine[0].get("corners"))
+                    and _tg_same(t1.get("increasing"), mine[0].get("increasing")))
+            path.oblige(m.oblname("level_1_tile_has_the_corners_and_orientation_of_the_requested_system"), z3.BoolVal(bool(same)),
+                        kind="trace", assume_after=False)
+        path.pc[:] = saved
+
+
+def Env_with(fr, env, value):
+    from pyvc.interp import Env
+    e = Env(module=fr.module)
+    e.vars = dict(fr.entry_env.vars)
+    e.vars["result"] = value
+    return e
+
+
+def descent_setup(interp, path):
+    case = interp._case
+    if not case.get("descent"):
+        return point_setup(interp, path)
+    depth = z3.Int(fresh_name("depth"))
+    path.assume(depth >= 1)
+    return {"depth": depth, "lat": z3.Real(fresh_name("lat")), "lon": z3.Real(fresh_name("lon")), "coordsys": _cs(case)}
+
+
 _tp = contract("toasty.toast.toast_tile_for_point")
 
 
 @_tp
 def _(c):
-    c.cases(*L1_CASES)
-    c.setup(point_setup)
-    c.on_path(point_trace)
+    c.cases(*(L1_CASES + [dict(k, descent=True) for k in L1_CASES]))
+    c.setup(descent_setup)
+    c.loop(1, invariant=[
+        ("level_between_1_and_depth", "1 <= tile.pos.n and tile.pos.n <= depth"),
+        ("below_the_selected_level_1_tile", "is_child(at_loop_entry(tile).pos, Pos(0, 0, 0)) and desc(tile.pos, at_loop_entry(tile).pos)"),
+    ], types={"tile": "TileT", "best_score": "real", "child": "TileT", "score": "real"}, decreases="depth - tile.pos.n",
+        only_cases=lambda case: bool(case.get("descent")))
+    c.on_path(lambda *a: None if a[0]._case.get("descent") else point_trace(*a))
+    c.on_path(descent_trace)
 
 
 # ---- create_single_tile: the descent lands on the requested position ------------------------------------
@@ -178,6 +341,13 @@ def _div4_model(interp, env):
         pos = NTuple("Pos", ("n", "x", "y"), [simp(n + 1), simp(2 * x + (k % 2)), simp(2 * y + (k // 2))])
         corners = tuple(Opaque("point", fresh_name("child%d.c%d" % (k, j))) for j in range(4))
         kids.append(NTuple("Tile", ("pos", "corners", "increasing"), [pos, corners, t.get("increasing")]))
+    interp.path.event("div4_kids", t, kids)
+    # child/parent marker of the Desc theory: CHECKED here (the definitional axiom of the marker applied to the child
+    # positions), then used
+    from .specfuns import Child
+    for kid in kids:
+        cn, cx, cy = [z3num(v) for v in kid.get("pos").vals]
+        interp.path.oblige(interp.oblname("div4_children_are_children_of_the_tile"), Child(cn, cx, cy, n, x, y), kind="assert")
     return PyList(kids)
 
 
